@@ -66,6 +66,9 @@ void GlobalGraph::edgeMustExist_(const GlobalGraph::Edge& edge, string name) con
 
 GlobalGraph::Edge GlobalGraph::link(Graph::NodeId nodeA, Graph::NodeId nodeB)
 {
+  nodeMustExist_(nodeA, "first node to link");
+  nodeMustExist_(nodeB, "second node to link");
+
   // which ID is available?
   GlobalGraph::Edge edgeID = highestEdgeID_++;
 
@@ -83,6 +86,8 @@ void GlobalGraph::link(Graph::NodeId nodeA, Graph::NodeId nodeB, GlobalGraph::Ed
 {
   if (edgeStructure_.find(edgeID) != edgeStructure_.end())
     throw Exception("GlobalGraph::link : already existing edgeId " + TextTools::toString(edgeID));
+  nodeMustExist_(nodeA, "first node to link");
+  nodeMustExist_(nodeB, "second node to link");
 
   // writing the new relation to the structure
   linkInNodeStructure_(nodeA, nodeB, edgeID);
@@ -227,6 +232,7 @@ Graph::NodeId GlobalGraph::createNode()
 
 Graph::NodeId GlobalGraph::createNodeFromNode(Graph::NodeId origin)
 {
+  nodeMustExist_(origin, "origin node");
   Graph::NodeId newNode = createNode();
   link(origin, newNode);
   this->topologyHasChanged_();
